@@ -14,8 +14,8 @@ from dataclasses import dataclass, field
 CHUNKINGS = ("one", "seven", "record", "coalesce", "random")
 
 
-class Deadlock(Exception):
-    pass
+class Livelock(Exception):
+    """The same reader was told 'end of stream' over and over: the pump loop above it is spinning."""
 
 
 # ------------------------------------------------------------------------------------------------
@@ -154,6 +154,7 @@ def make_endpoint_class():
             self.mon: list[str] = []
             self.n_receive = 0
             self.n_send = 0
+            self.eof_reports = 0
             self.forced_close = False
 
         async def send(self, item: bytes) -> None:
@@ -190,6 +191,11 @@ def make_endpoint_class():
                     return d.take(max_bytes)
                 if d.at_eof():
                     self.conn.activity += 1
+                    self.eof_reports += 1
+                    if self.eof_reports > 25:
+                        self.mon.append(f"{self.label}: livelock: the pump loop kept calling transport.receive() after "
+                                        f"{self.eof_reports - 1} EndOfStream reports")
+                        raise Livelock
                     await anyio.lowlevel.checkpoint()
                     raise anyio.EndOfStream
                 d.waiter = anyio.Event()
